@@ -322,6 +322,7 @@ func runCancelCase(c *cpCase, T time.Duration, asyncCancel bool) (obs []int64, f
 		hframes     []bool
 		nread       int
 		pendingAsyncCancel bool
+		pastDeadline bool // the deadline instant has passed (whatever state the context was in)
 		chunk       = make([]byte, cpChunk)
 	)
 	otherCause := func() bool { return facts.deadlinePassed || facts.completed || facts.blackholed || facts.connFailed }
@@ -339,7 +340,7 @@ func runCancelCase(c *cpCase, T time.Duration, asyncCancel bool) (obs []int64, f
 	}
 	callerFail := func(op string, err error) {
 		cres = cpErrCode(err)
-		facts.callerErrs = append(facts.callerErrs, fmt.Sprintf("%s:%d:cancelled=%v:deadline=%v", op, cres, cancelled, deadlineHit))
+		facts.callerErrs = append(facts.callerErrs, fmt.Sprintf("%s:%d:cancelled=%v:deadline=%v:past=%v", op, cres, cancelled, deadlineHit, pastDeadline))
 		if cres == 2 && handlerStarted(0) && !otherCause() && !pathBroken {
 			facts.cancelSeenLive = true
 		}
@@ -486,6 +487,11 @@ func runCancelCase(c *cpCase, T time.Duration, asyncCancel bool) (obs []int64, f
 				facts.callerErrs = append(facts.callerErrs, "read:blocked")
 			}
 		case lCancel:
+			if cres == 7 {
+				// the caller was abandoned while blocked in a read (the harness gave up on it, the
+				// model's caller is finished): cancelling now would wake that read up
+				continue
+			}
 			if asyncCancel && idx+1 < len(c.labels) && c.labels[idx+1] == lRead && begun && cres < 0 && reqClosed && nread >= len(hframes) && !cancelled && !deadlineHit {
 				pendingAsyncCancel = true
 				continue
@@ -504,6 +510,7 @@ func runCancelCase(c *cpCase, T time.Duration, asyncCancel bool) (obs []int64, f
 			if !cancelled {
 				deadlineHit = true
 			}
+			pastDeadline = true
 			if handlerStarted(0) {
 				facts.deadlinePassed = true
 			}
@@ -534,7 +541,9 @@ func runCancelCase(c *cpCase, T time.Duration, asyncCancel bool) (obs []int64, f
 			}
 			time.Sleep(15 * time.Millisecond)
 		case lConnFail:
-			if !begun {
+			// the connection that carries the call towards the server: the caller's own from
+			// BeginCall on; a relay's outbound one once the first frame went through it
+			if !begun || (len(c.hops) > 0 && !handlerStarted(0)) {
 				continue
 			}
 			killer.kill()
@@ -594,12 +603,19 @@ func cpOracle(c *cpCase, obs []int64, f *cpFacts) string {
 			continue
 		}
 		parts := splitColon(e)
-		if len(parts) != 4 {
+		if len(parts) != 5 {
 			continue
 		}
 		fmt.Sscanf(parts[1], "%d", &code)
 		cancelled = parts[2] == "cancelled=true"
 		deadline = parts[3] == "deadline=true"
+		if parts[0] == "begin" && parts[4] == "past=true" {
+			// under a millisecond left: local timeout, whatever the state of the context
+			if code != 1 {
+				return fmt.Sprintf("BeginCall after the deadline ended with code %d, not ErrTimeout", code)
+			}
+			continue
+		}
 		if cancelled && !f.connFailed && code != 2 {
 			return fmt.Sprintf("caller operation %s after its context was cancelled ended with code %d, not ErrRequestCancelled", parts[0], code)
 		}
@@ -712,6 +728,8 @@ func engineCancelProp(rng *rand.Rand, n int, tier string, o *Out) {
 		{lBegin, lWFrag, lConnFail, lWClose},
 		{lBegin, lWClose, lHBlackhole, lCancel, lRead},
 		{lBegin, lWFrag, lWFrag, lCancel},
+		{lCancel, lDeadline, lBegin},
+		{lDeadline, lCancel, lBegin, lWClose},
 	}
 	var fixedCases []*cpCase
 	for _, hops := range [][]bool{nil, {true}, {false}} {
